@@ -10,7 +10,8 @@ MUTANTS = [("MC_FairQueue_m1", "insert() does not wake the receiver", "NoLostWak
            ("MC_FairQueue_m5", "every wake-up queues a ready event, also for a stream that is already queued (the code before fix 8512c0f)", "FairBoundTight"),
            ("MC_FairQueue_m6", "poll_next never gives control back while streams keep waking themselves (the code before fix 634cc7b)", "YieldBound"),
            ("MC_FairQueue_m7", "a polled stream is put back over a newer stream registered under its key meanwhile (the code before the supersede fix)", "NoStreamLost"),
-           ("MC_FairQueue_m8", "re-insert of a registered key queues no ready event", "ReadyHasSignal")]
+           ("MC_FairQueue_m8", "re-insert of a registered key queues no ready event", "ReadyHasSignal"),
+           ("MC_FairQueue_m9", "the owner of the queue is not told that a stream ended (the code before the orderly-close fix)", "EndReported")]
 REACH = ["MC_FairQueue_r1", "MC_FairQueue_r2", "MC_FairQueue_r3"]
 
 
